@@ -109,6 +109,18 @@ def fmtSignErr : SignErr → String
 def fmtAccts (as : List Acct) : String :=
   joinWith "," (as.map fun a => s!"{a.key}:{a.outpoint}:{a.version}")
 
+/-- staged rows in diff order: key:outpoint:version:out (out only for re-created accounts) -/
+def fmtRows (s : St) : String :=
+  match s.pending, s.db.staged with
+  | some b, some g =>
+    let rows := (b.diffs.zip g.rows).map fun (d, a) =>
+      let o := match d.newOutpoint with
+        | some _ => toString a.out
+        | none => "-"
+      s!"{a.key}:{a.outpoint}:{a.version}:{o}"
+    if rows.isEmpty then "-" else joinWith "," rows
+  | _, _ => "?"
+
 abbrev DrvSt := St
 def drvInit : DrvSt := initSt [] []
 
@@ -142,7 +154,8 @@ def drvStep (s : St) (args : List String) : St × String :=
     | some (f, ns, pv) =>
       let r := step (·.vflag) s (.sign f ns pv)
       let out := match r.2 with
-        | .sign (.ok sigs _) => s!"ok tx={(r.1.pending.map (·.tid)).getD 0} sigs={fmtSigs sigs}"
+        | .sign (.ok sigs _) =>
+          s!"ok tx={(r.1.pending.map (·.tid)).getD 0} sigs={fmtSigs sigs} rows={fmtRows r.1}"
         | .sign (.errSign e) => fmtSignErr e
         | .sign .errStore => "err:store"
         | .sign .panic => "panic"
